@@ -14,7 +14,7 @@ DEPTH = {
     "resolver": (6, 8), "spanner": (0, 0),
     # depth counts the free inputs after the preamble
     "deep-aff": (5, 6), "deep-affref": (5, 6), "deep-refbound": (5, 6), "deep-load": (6, 8), "deep-fb": (5, 6),
-    "deep-refresh": (5, 7), "deep-rr": (4, 5), "deep-ref2": (9, 12), "deep-fb2": (5, 7), "deep-fb3": (5, 7),
+    "deep-refresh": (5, 7), "deep-rr": (4, 5), "deep-ref2": (9, 12), "deep-fb2": (5, 7), "deep-fb3": (5, 7), "deep-fb4": (4, 6),
 }
 SIM = {"quick": (120, 25), "thorough": (1500, 40)}
 
@@ -92,7 +92,7 @@ def run(pid, tier, seed):
         for f in fams:
             qd, td = DEPTH[f]
             depth = qd if tier == "quick" else td
-            prelen = [0, 2, 3, 4, 5, 4, 5, 7, 9][pool.FAMILIES[f].get("Pre", 0)]
+            prelen = [0, 2, 3, 4, 5, 4, 5, 7, 9, 9][pool.FAMILIES[f].get("Pre", 0)]
             if depth:
                 depth += prelen
             simn, simd = SIM[tier]
